@@ -108,6 +108,8 @@ class EvalMixin:
 
     def unify(self, x, y):
         if x.ty == y.ty: return x, y
+        if x.ty == T.Card or y.ty == T.Card:
+            return self.coerce(x, T.Card), self.coerce(y, T.Card)
         for a, b in ((x, y), (y, x)):
             try:
                 c = self.coerce(b, a.ty)
